@@ -303,3 +303,30 @@ def translate_limit(ins, start, term):
         else:
             raise Unsupported(text)
     return ";".join(out)
+
+
+CALLEE_SAVED = ["rbp", "rbx", "r12", "r13", "r14", "r15"]
+
+
+def frame_of(prologue, epilogue, term_rel):
+    """prologue / epilogue instruction lists -> (pushes, sub_bytes); raises Unsupported unless they
+    are: push the six callee-saved registers, reserve the frame, take cxt and tape pointer from
+    rdi/rsi — and: return 1, or (termination path, at `term_rel`) return 0, release the frame, pop
+    in reverse order, ret"""
+    norm = lambda t: re.sub(r"\s+", " ", t.strip())
+    pro = [norm(t) for t in prologue]
+    epi = [norm(t) for t in epilogue]
+    n = len(CALLEE_SAVED)
+    if pro[:n] != ["push " + r for r in CALLEE_SAVED]:
+        raise Unsupported("prologue pushes: " + " ; ".join(pro))
+    m = re.match(r"^sub rsp,(0x[0-9a-f]+|\d+)$", pro[n]) if len(pro) > n else None
+    if not m or pro[n + 1:] != ["mov rbx,rdi", "mov rbp,rsi"]:
+        raise Unsupported("prologue: " + " ; ".join(pro))
+    sub = num(m.group(1))
+    want = ["mov eax,0x1", None, "mov eax,0x0", "add rsp,%s" % hex(sub)] + ["pop " + r for r in reversed(CALLEE_SAVED)] + ["ret"]
+    if len(epi) != len(want) or any(w is not None and w != e for w, e in zip(want, epi)):
+        raise Unsupported("epilogue: " + " ; ".join(epi))
+    j = re.match(r"^jmp (0x[0-9a-f]+)$", epi[1])
+    if not j:
+        raise Unsupported("epilogue jump: " + epi[1])
+    return n, sub, num(j.group(1))
